@@ -47,6 +47,8 @@ func (c ctor) String() string {
 }
 
 type op struct {
+	t     int // target instance of the history's pool of live containers
+	src   int // source instance of a cross-object operation (PAF, TOF)
 	code  string
 	k     key
 	v     int64
@@ -78,6 +80,14 @@ type inst struct {
 	// wire (IntIntMap only)
 	toBytes  func() []byte
 	fromWire func(b []byte) *inst
+	// several live containers
+	putAllFrom    func(src *inst)   // IntKeyMap.PutAll(other)
+	toObjectBytes func(b []byte)    // IntIntMap.ToObject(bytes of another map)
+	keyArrayWrite func() string     // KeyArray()/ValueArray(): sorted keys, then the caller scribbles over the returned slices
+	putAllWrite   func(ps []pairKV) // IntSet.PutAll(slice), then the caller scribbles over the slice
+	openEnum      func()            // take the enumerators now …
+	drainEnum     func() string     // … and drain them later (sorted entries); the container is not modified in between
+	raw           interface{}
 }
 
 type tdesc struct {
@@ -86,6 +96,7 @@ type tdesc struct {
 	hasCtor  bool
 	isSet    bool
 	ops      []string
+	xops     []string // operations that involve another live container, a caller-held slice or a kept enumerator
 	views    []string
 	mk       func(ctor) *inst
 	repaired bool // a known finding of this type no longer reproduces: compare with the repaired descriptor
@@ -130,7 +141,8 @@ func newIntIntMap(c ctor) *inst {
 }
 
 func wrapIntIntMap(m *hmap.IntIntMap) *inst {
-	return &inst{
+	var it *inst
+	it = &inst{
 		exec: func(o op) string {
 			k, v := int32(o.k.i), int32(o.v)
 			switch o.code {
@@ -224,7 +236,50 @@ func wrapIntIntMap(m *hmap.IntIntMap) *inst {
 		fromWire: func(b []byte) *inst {
 			return wrapIntIntMap(hmap.NewIntIntMapDefault().ToObject(gio.NewDataInputX(b)))
 		},
+		toObjectBytes: func(b []byte) { m.ToObject(gio.NewDataInputX(b)) },
+		keyArrayWrite: func() string {
+			ks, vs := m.KeyArray(), m.ValueArray()
+			var toks []string
+			for _, k := range ks {
+				toks = append(toks, i32Tok(k))
+			}
+			for i := range ks {
+				ks[i] = 0x5a5a5a5a
+			}
+			for i := range vs {
+				vs[i] = -7
+			}
+			return sortedToks(toks, true)
+		},
+		raw: m,
 	}
+	var enE hmap.Enumeration
+	var enK hmap.IntEnumer
+	it.openEnum = func() { enE, enK = m.Entries(), m.Keys() }
+	it.drainEnum = func() string {
+		if enE == nil {
+			it.openEnum()
+		}
+		n := m.Size()
+		var ps []pairS
+		var ks, ks2 []string
+		for i := 0; enE.HasMoreElements() && i < n+enumSlack; i++ {
+			if e, ok := enE.NextElement().(*hmap.IntIntEntry); ok {
+				ps = append(ps, pairS{i32Tok(e.GetKey()), i32Tok(e.GetValue())})
+				ks = append(ks, i32Tok(e.GetKey()))
+			}
+		}
+		for i := 0; enK.HasMoreElements() && i < n+enumSlack; i++ {
+			ks2 = append(ks2, i32Tok(enK.NextInt()))
+		}
+		enE, enK = nil, nil
+		out := joinPairs(sortedPairs(&tdesc{kkind: 'i'}, ps))
+		if sortedToks(ks, true) != sortedToks(ks2, true) {
+			out += "!keys=" + sortedToks(ks2, true)
+		}
+		return out
+	}
+	return it
 }
 
 func encodePairs(ps []pairKV) []byte {
@@ -244,7 +299,7 @@ func newIntKeyMap(c ctor) *inst {
 	} else {
 		m = hmap.NewIntKeyMap(c.cap, c.lf)
 	}
-	return &inst{
+	it := &inst{
 		exec: func(o op) string {
 			k := int32(o.k.i)
 			switch o.code {
@@ -311,11 +366,51 @@ func newIntKeyMap(c ctor) *inst {
 			return d
 		},
 	}
+	it.raw = m
+	it.putAllFrom = func(src *inst) { m.PutAll(src.raw.(*hmap.IntKeyMap)) }
+	it.keyArrayWrite = func() string {
+		ks := m.KeyArray()
+		var toks []string
+		for _, k := range ks {
+			toks = append(toks, i32Tok(k))
+		}
+		for i := range ks {
+			ks[i] = 0x5a5a5a5a
+		}
+		return sortedToks(toks, true)
+	}
+	var enE hmap.Enumeration
+	var enK hmap.IntEnumer
+	it.openEnum = func() { enE, enK = m.Entries(), m.Keys() }
+	it.drainEnum = func() string {
+		if enE == nil {
+			it.openEnum()
+		}
+		n := m.Size()
+		var ps []pairS
+		var ks, ks2 []string
+		for i := 0; enE.HasMoreElements() && i < n+enumSlack; i++ {
+			if e, ok := enE.NextElement().(*hmap.IntKeyEntry); ok {
+				ps = append(ps, pairS{i32Tok(e.GetKey()), objVal(e.GetValue())})
+				ks = append(ks, i32Tok(e.GetKey()))
+			}
+		}
+		for i := 0; enK.HasMoreElements() && i < n+enumSlack; i++ {
+			ks2 = append(ks2, i32Tok(enK.NextInt()))
+		}
+		enE, enK = nil, nil
+		out := joinPairs(sortedPairs(&tdesc{kkind: 'i'}, ps))
+		if sortedToks(ks, true) != sortedToks(ks2, true) {
+			out += "!keys=" + sortedToks(ks2, true)
+		}
+		return out
+	}
+	return it
 }
 
 func newIntSet(c ctor) *inst {
 	m := hmap.NewIntSet()
-	return &inst{
+	it := &inst{
 		exec: func(o op) string {
 			k := int32(o.k.i)
 			switch o.code {
@@ -354,11 +449,37 @@ func newIntSet(c ctor) *inst {
 			return d
 		},
 	}
+	it.raw = m
+	it.putAllWrite = func(ps []pairKV) {
+		xs := make([]int32, 0, len(ps))
+		for _, p := range ps {
+			xs = append(xs, int32(p.k.i))
+		}
+		m.PutAll(xs)
+		for i := range xs {
+			xs[i] = 0x5a5a5a5a
+		}
+	}
+	var en *hmap.IntSetEnumer
+	it.openEnum = func() { en = m.Values() }
+	it.drainEnum = func() string {
+		if en == nil {
+			it.openEnum()
+		}
+		n := m.Size()
+		var ps []pairS
+		for i := 0; en.HasMoreElements() && i < n+enumSlack; i++ {
+			ps = append(ps, pairS{i32Tok(en.NextInt()), "0"})
+		}
+		en = nil
+		return joinPairs(sortedPairs(&tdesc{kkind: 'i'}, ps))
+	}
+	return it
 }
 
 func newStringSet(c ctor) *inst {
 	m := hmap.NewStringSet()
-	return &inst{
+	it := &inst{
 		exec: func(o op) string {
 			k := o.k.s
 			switch o.code {
@@ -394,21 +515,37 @@ func newStringSet(c ctor) *inst {
 			return d
 		},
 	}
+	it.raw = m
+	var en hmap.StringEnumer
+	it.openEnum = func() { en = m.Keys() }
+	it.drainEnum = func() string {
+		if en == nil {
+			it.openEnum()
+		}
+		n := m.Size()
+		var ps []pairS
+		for i := 0; en.HasMoreElements() && i < n+enumSlack; i++ {
+			ps = append(ps, pairS{strTok(en.NextString()), "0"})
+		}
+		en = nil
+		return joinPairs(sortedPairs(&tdesc{kkind: 's'}, ps))
+	}
+	return it
 }
 
 var types = []*tdesc{
 	{name: "IntIntMap", kkind: 'i', hasCtor: true,
-		ops:   []string{"P", "A", "AE", "G", "CK", "CV", "R", "C", "SZ", "IE", "IF", "SM", "SO", "TO"},
-		views: []string{"Entries", "Keys", "Values", "KeyArray", "ValueArray"}, mk: newIntIntMap},
+		ops:  []string{"P", "A", "AE", "G", "CK", "CV", "R", "C", "SZ", "IE", "IF", "SM", "SO", "TO"},
+		xops: []string{"TOF", "KAW", "EOB"}, views: []string{"Entries", "Keys", "Values", "KeyArray", "ValueArray"}, mk: newIntIntMap},
 	{name: "IntKeyMap", kkind: 'i', hasCtor: true,
-		ops:   []string{"P", "G", "CK", "CV", "R", "C", "SZ", "PA"},
-		views: []string{"Entries", "Keys", "Values", "KeyArray"}, mk: newIntKeyMap},
+		ops:  []string{"P", "G", "CK", "CV", "R", "C", "SZ", "PA"},
+		xops: []string{"PAF", "KAW", "EOB"}, views: []string{"Entries", "Keys", "Values", "KeyArray"}, mk: newIntKeyMap},
 	{name: "IntSet", kkind: 'i', isSet: true,
-		ops:   []string{"P", "CK", "R", "C", "SZ", "PA"},
-		views: []string{"Values"}, mk: newIntSet},
+		ops:  []string{"P", "CK", "R", "C", "SZ", "PA"},
+		xops: []string{"PAW", "EOB"}, views: []string{"Values"}, mk: newIntSet},
 	{name: "StringSet", kkind: 's', isSet: true,
-		ops:   []string{"P", "U", "CK", "HK", "R", "C", "SZ"},
-		views: []string{"Keys"}, mk: newStringSet},
+		ops:  []string{"P", "U", "CK", "HK", "R", "C", "SZ"},
+		xops: []string{"EOB"}, views: []string{"Keys"}, mk: newStringSet},
 }
 
 func (t *tdesc) method(code string) string {
@@ -448,8 +585,14 @@ func (t *tdesc) method(code string) string {
 		return "Sort"
 	case "PA":
 		return "PutAll"
-	case "TO":
+	case "TO", "TOF":
 		return "ToObject"
+	case "PAF", "PAW":
+		return "PutAll"
+	case "KAW":
+		return "KeyArray"
+	case "EO", "ED":
+		return "Enumerator"
 	}
 	return code
 }
@@ -461,8 +604,23 @@ func (t *tdesc) keyTok(k key) string {
 	return strconv.FormatInt(k.i, 10)
 }
 
-func (t *tdesc) line(o op) string {
+// line is the request line sent to the driver: `@<instance> <operation>`.
+func (t *tdesc) line(o op) string { return fmt.Sprintf("@%d %s", o.t, t.line0(o)) }
+
+func (t *tdesc) line0(o op) string {
 	switch o.code {
+	case "PAF", "TOF":
+		return fmt.Sprintf("%s %d", o.code, o.src)
+	case "PAW":
+		o2 := o
+		o2.code = "PA"
+		return t.line0(o2)
+	case "KAW":
+		return "KS"
+	case "EO":
+		return "SZ"
+	case "ED":
+		return "ES"
 	case "P", "A", "AE":
 		return fmt.Sprintf("%s %s %d", o.code, t.keyTok(o.k), o.v)
 	case "U":
@@ -500,8 +658,16 @@ func (t *tdesc) line(o op) string {
 }
 
 // the line as stored in a replay (the harness-side op, so that U / HK / PA / TO can be re-executed)
-func (t *tdesc) replayLine(o op) string {
+func (t *tdesc) replayLine(o op) string { return fmt.Sprintf("@%d %s", o.t, t.replayLine0(o)) }
+
+func (t *tdesc) replayLine0(o op) string {
 	switch o.code {
+	case "KAW", "EO", "ED":
+		return o.code
+	case "PAW":
+		o2 := o
+		o2.code = "PA"
+		return "PAW" + t.line0(o2)[2:]
 	case "U", "HK":
 		return o.code + " " + t.keyTok(o.k)
 	case "TO":
@@ -514,15 +680,20 @@ func (t *tdesc) replayLine(o op) string {
 		}
 		return "TO " + strings.Join(ps, ",")
 	}
-	return t.line(o)
+	return t.line0(o)
 }
 
 func parseLine(t *tdesc, l string) (op, bool) {
 	w := strings.Fields(l)
+	tgt := 0
+	if len(w) > 0 && strings.HasPrefix(w[0], "@") {
+		tgt, _ = strconv.Atoi(w[0][1:])
+		w = w[1:]
+	}
 	if len(w) == 0 {
 		return op{}, false
 	}
-	o := op{code: w[0]}
+	o := op{code: w[0], t: tgt}
 	pk := func(s string) key {
 		if t.kkind == 's' {
 			if s == "~" {
@@ -551,7 +722,12 @@ func parseLine(t *tdesc, l string) (op, bool) {
 		o.n, _ = strconv.Atoi(w[1])
 	case "SO":
 		o.asc = w[1] == "asc"
-	case "PA", "TO":
+	case "PAF", "TOF":
+		if len(w) != 2 {
+			return o, false
+		}
+		o.src, _ = strconv.Atoi(w[1])
+	case "PA", "TO", "PAW":
 		if len(w) == 2 && w[1] != "[]" {
 			for _, p := range strings.Split(w[1], ",") {
 				i := strings.LastIndexByte(p, '=')
@@ -568,8 +744,8 @@ func parseLine(t *tdesc, l string) (op, bool) {
 
 func mutating(code string) bool {
 	switch code {
-	case "P", "U", "A", "AE", "R", "C", "SO", "PA", "TO":
-		return true
+	case "P", "U", "A", "AE", "R", "C", "SO", "PA", "TO", "PAF", "TOF", "PAW", "KAW":
+		return true // (KAW does not mutate; it is followed by a dump because the caller writes the returned slices)
 	}
 	return false
 }
@@ -641,12 +817,13 @@ type stepRes struct {
 	line string
 	o    op
 	out  string
-	dmp  *dump
+	dmps []dump // dump of EVERY live instance after this step (nil: not dumped)
 }
 
 type histRes struct {
 	t      *tdesc
-	c      ctor
+	c      ctor   // constructor of instance 0
+	cs     []ctor // constructors of all live instances
 	ops    []op
 	steps  []stepRes
 	abort  string
@@ -657,24 +834,59 @@ type histRes struct {
 	skip   map[string]bool
 }
 
-func runImpl(t *tdesc, c ctor, ops []op, dumpEvery int, skip map[string]bool) *histRes {
-	h := &histRes{t: t, c: c, ops: ops, skip: skip}
+// execOp runs one operation of a multi-instance history.
+func execOp(ms []*inst, o op) string {
+	m := ms[o.t]
+	switch o.code {
+	case "PAF":
+		m.putAllFrom(ms[o.src])
+		return "u"
+	case "TOF":
+		m.toObjectBytes(ms[o.src].toBytes())
+		return "u"
+	case "PAW":
+		m.putAllWrite(o.pairs)
+		return "u"
+	case "KAW":
+		return m.keyArrayWrite()
+	case "EO":
+		m.openEnum()
+		return m.exec(op{code: "SZ"})
+	case "ED":
+		return m.drainEnum()
+	}
+	return m.exec(o)
+}
+
+func runImpl(t *tdesc, cs []ctor, ops []op, dumpEvery int, skip map[string]bool) *histRes {
+	h := &histRes{t: t, c: cs[0], cs: cs, ops: ops, skip: skip}
 	var cur int64 = -1
 	var mu sync.Mutex
 	done := make(chan vh.Outcome, 1)
 	go func() {
 		done <- vh.Guard(func() {
-			m := t.mk(c)
+			var ms []*inst
+			for _, c := range cs {
+				ms = append(ms, t.mk(c))
+			}
+			m := ms[0]
 			sinceDump := 0
 			for i, o := range ops {
 				atomic.StoreInt64(&cur, int64(i))
-				out := m.exec(o)
+				if o.t >= len(ms) {
+					o.t = 0
+				}
+				if o.src >= len(ms) {
+					o.src = 0
+				}
+				out := execOp(ms, o)
 				st := stepRes{line: t.line(o), o: o, out: out}
 				if mutating(o.code) {
 					sinceDump++
 					if sinceDump >= dumpEvery || i == len(ops)-1 {
-						d := m.dump(skip)
-						st.dmp = &d
+						for _, mi := range ms {
+							st.dmps = append(st.dmps, mi.dump(skip))
+						}
 						sinceDump = 0
 					}
 				}
@@ -729,6 +941,29 @@ type replayCase struct {
 	Cap    int      `json:"cap"`
 	Lf     float32  `json:"lf"`
 	Def    bool     `json:"default_ctor"`
+	Insts  []instJ  `json:"instances"`
+}
+
+type instJ struct {
+	Cap int     `json:"cap"`
+	Lf  float32 `json:"lf"`
+	Def bool    `json:"default_ctor"`
+}
+
+func ctorsJ(cs []ctor) []instJ {
+	var out []instJ
+	for _, c := range cs {
+		out = append(out, instJ{c.cap, c.lf, c.def})
+	}
+	return out
+}
+
+func ctorsStr(cs []ctor) string {
+	var xs []string
+	for _, c := range cs {
+		xs = append(xs, c.String())
+	}
+	return strings.Join(xs, " | ")
 }
 
 func mkReplay(h *histRes, upto int, want, got, detail string) replayCase {
@@ -736,21 +971,25 @@ func mkReplay(h *histRes, upto int, want, got, detail string) replayCase {
 	for i := 0; i <= upto && i < len(h.steps); i++ {
 		lines = append(lines, h.t.replayLine(h.steps[i].o))
 	}
-	return replayCase{Type: h.t.name, Ctor: h.c.String(), New: h.t.newLine(h.c), Ops: lines, At: upto, Want: want, Got: got, Detail: detail,
-		Cap: h.c.cap, Lf: h.c.lf, Def: h.c.def}
+	return replayCase{Type: h.t.name, Ctor: ctorsStr(h.cs), New: h.t.newLine(h.c), Ops: lines, At: upto, Want: want, Got: got, Detail: detail,
+		Cap: h.c.cap, Lf: h.c.lf, Def: h.c.def, Insts: ctorsJ(h.cs)}
 }
 
 func driverLines(h *histRes) []string {
-	ls := []string{h.t.newLine(h.c)}
+	var ls []string
+	for i, c := range h.cs {
+		ls = append(ls, fmt.Sprintf("@%d %s", i, h.t.newLine(c)))
+	}
 	for _, s := range h.steps {
 		ls = append(ls, s.line)
-		if s.dmp != nil {
-			ls = append(ls, "ES")
+		for i := range s.dmps {
+			ls = append(ls, fmt.Sprintf("@%d ES", i))
 		}
 	}
 	if h.wire != nil && h.abort == "" {
-		// the model's own serialization of the final state, then: the implementation's bytes read by the model
-		ls = append(ls, "ES", "TB", h.t.newLine(ctor{def: true}), "TO "+vh.Hex(h.wire), "ES")
+		// the model's own serialization of the final state of instance 0, then: the implementation's bytes
+		// read by the model into the scratch slot 3
+		ls = append(ls, "@0 ES", "@0 TB", "@3 "+h.t.newLine(ctor{def: true}), "@3 TO "+vh.Hex(h.wire), "@3 ES")
 	}
 	return ls
 }
@@ -824,10 +1063,12 @@ func compare(h *histRes, ans []string, postWire func(modelBytes string, modelEnt
 		}
 	}
 	t := h.t
-	if ans[0] != "ok" {
-		return []*verdict{{key: t.name + ".New:driver", summary: "driver refused the session: " + ans[0], rc: mkReplay(h, -1, "ok", ans[0], "")}}
+	for i := range h.cs {
+		if ans[i] != "ok" {
+			return []*verdict{{key: t.name + ".New:driver", summary: "driver refused the session: " + ans[i], rc: mkReplay(h, -1, "ok", ans[i], "")}}
+		}
 	}
-	j := 1
+	j := len(h.cs)
 	for i, s := range h.steps {
 		model := ans[j]
 		j++
@@ -841,13 +1082,18 @@ func compare(h *histRes, ans []string, postWire func(modelBytes string, modelEnt
 				summary: fmt.Sprintf("%s.%s returned %s, the map model returns %s (op %d: %s)", t.name, t.method(s.o.code), s.out, want, i, t.replayLine(s.o)),
 				rc:      mkReplay(h, i, want, s.out, "")})
 		}
-		if s.dmp != nil {
+		for di := range s.dmps {
 			es := ans[j]
 			j++
-			d := s.dmp
+			d := &s.dmps[di]
 			if d.has["Entries"] {
 				got := joinPairs(sortedPairs(t, d.entries))
 				if got != es {
+					if di != s.o.t {
+						return append(vs, &verdict{key: t.name + "." + t.method(s.o.code) + ":aliasing",
+							summary: fmt.Sprintf("%s.%s on instance %d changed ANOTHER live instance (%d): it enumerates (sorted) %s, its model has %s (op %d: %s)", t.name, t.method(s.o.code), s.o.t, di, vh.Clip(got, 160), vh.Clip(es, 160), i, t.replayLine(s.o)),
+							rc:      mkReplay(h, i, es, got, fmt.Sprintf("instance %d", di))})
+					}
 					return append(vs, &verdict{key: t.name + "." + t.method(s.o.code) + ":state",
 						summary: fmt.Sprintf("after %s.%s the enumerated elements (sorted) are %s, the map model has %s (op %d: %s)", t.name, t.method(s.o.code), vh.Clip(got, 160), vh.Clip(es, 160), i, t.replayLine(s.o)),
 						rc:      mkReplay(h, i, es, got, "")})
@@ -1057,9 +1303,27 @@ func genVal(t *tdesc, r *vh.Rng) int64 {
 	return r.Range(-50, 50)
 }
 
-var weights = map[string]int{"P": 30, "U": 8, "A": 10, "AE": 6, "G": 8, "CK": 7, "HK": 3, "CV": 4, "R": 14, "C": 1, "SZ": 2, "IE": 1, "IF": 2, "SM": 2, "SO": 2, "PA": 3, "TO": 2}
+// baseOnly: the single-object operations among the available ones
+func baseOnly(avail []string) []string {
+	var out []string
+	for _, a := range avail {
+		switch a {
+		case "PAF", "TOF", "PAW", "KAW", "EOB":
+		default:
+			out = append(out, a)
+		}
+	}
+	return out
+}
 
-func genOps(t *tdesc, r *vh.Rng, avail []string, n int) []op {
+var weights = map[string]int{"PAF": 6, "TOF": 5, "PAW": 3, "KAW": 2, "EOB": 3, "P": 30, "U": 8, "A": 10, "AE": 6, "G": 8, "CK": 7, "HK": 3, "CV": 4, "R": 14, "C": 1, "SZ": 2, "IE": 1, "IF": 2, "SM": 2, "SO": 2, "PA": 3, "TO": 2}
+
+// genOps generates a history over `nInst` live instances of the type (one key pool for all of them, so
+// that the same keys live in several containers).  Cross-object operations: PAF (PutAll from another live
+// instance, sometimes into a just-cleared target), TOF (ToObject of another instance's ToBytes), PAW
+// (PutAll of a slice the caller overwrites afterwards), KAW (KeyArray/ValueArray overwritten by the caller),
+// EOB (enumerators taken, other instances mutated, enumerators drained).
+func genOps(t *tdesc, r *vh.Rng, avail []string, n int, nInst int) []op {
 	pool := keyPool(t, r)
 	total := 0
 	for _, a := range avail {
@@ -1067,6 +1331,7 @@ func genOps(t *tdesc, r *vh.Rng, avail []string, n int) []op {
 	}
 	var vals []int64
 	ops := make([]op, 0, n)
+	readOnly := []string{"G", "CK", "SZ"}
 	for len(ops) < n {
 		x := r.Intn(total)
 		var code string
@@ -1077,8 +1342,37 @@ func genOps(t *tdesc, r *vh.Rng, avail []string, n int) []op {
 				break
 			}
 		}
-		o := op{code: code, k: pool[r.Intn(len(pool))]}
+		o := op{code: code, k: pool[r.Intn(len(pool))], t: r.Intn(nInst)}
 		switch code {
+		case "PAF", "TOF":
+			o.src = r.Intn(nInst)
+			if r.Chance(30) { // an empty target
+				ops = append(ops, op{code: "C", t: o.t})
+			}
+		case "PAW":
+			for i, m := 0, r.Intn(6); i < m; i++ {
+				o.pairs = append(o.pairs, pairKV{pool[r.Intn(len(pool))], 0})
+			}
+		case "EOB":
+			a := o.t
+			ops = append(ops, op{code: "EO", t: a})
+			for i, m := 0, 1+r.Intn(4); i < m; i++ {
+				if nInst > 1 {
+					b := (a + 1 + r.Intn(nInst-1)) % nInst
+					sub := genOps(t, r, baseOnly(avail), 1, 1)[0]
+					sub.t = b
+					sub.k = pool[r.Intn(len(pool))]
+					ops = append(ops, sub)
+				} else {
+					c := readOnly[r.Intn(len(readOnly))]
+					if t.isSet && c == "G" {
+						c = "CK"
+					}
+					ops = append(ops, op{code: c, t: a, k: pool[r.Intn(len(pool))]})
+				}
+			}
+			ops = append(ops, op{code: "ED", t: a})
+			continue
 		case "P", "A", "AE", "U":
 			o.v = genVal(t, r)
 			vals = append(vals, o.v)
@@ -1347,9 +1641,30 @@ func main() {
 			}
 		}
 		type job struct {
-			c   ctor
+			cs  []ctor
 			ops []op
 			de  int
+		}
+		if !po.skipView["KeyArray"] || !contains(t.xops, "KAW") {
+			avail = append(avail, t.xops...)
+		} else {
+			for _, x := range t.xops {
+				if x != "KAW" {
+					avail = append(avail, x)
+				}
+			}
+		}
+		genCtors := func(r *vh.Rng) []ctor {
+			n := r.PickInt([]int{1, 2, 2, 2, 3, 3})
+			cs := []ctor{genCtor(t, r, po.capOK)}
+			for len(cs) < n {
+				if r.Chance(50) {
+					cs = append(cs, cs[0]) // same capacity / load factor: same table length
+				} else {
+					cs = append(cs, genCtor(t, r, po.capOK))
+				}
+			}
+			return cs
 		}
 		var jobs []job
 		for i := 0; i < perType; i++ {
@@ -1362,11 +1677,12 @@ func main() {
 			if n > 400 {
 				de = 25
 			}
-			jobs = append(jobs, job{genCtor(t, r, po.capOK), genOps(t, r, avail, n), de})
+			cs := genCtors(r)
+			jobs = append(jobs, job{cs, genOps(t, r, avail, n, len(cs)), de})
 		}
 		for i := 0; i < growthPer; i++ {
 			r := rng.Fork()
-			jobs = append(jobs, job{genCtor(t, r, po.capOK), genGrowth(t, r, growthN), 64})
+			jobs = append(jobs, job{[]ctor{genCtor(t, r, po.capOK)}, genGrowth(t, r, growthN), 64})
 		}
 		res := make([]*histRes, len(jobs))
 		var wg sync.WaitGroup
@@ -1376,7 +1692,7 @@ func main() {
 			sem <- struct{}{}
 			go func(i int, j job) {
 				defer wg.Done()
-				res[i] = runImpl(t, j.c, j.ops, j.de, po.skipView)
+				res[i] = runImpl(t, j.cs, j.ops, j.de, po.skipView)
 				<-sem
 			}(i, j)
 		}
@@ -1462,8 +1778,10 @@ func main() {
 				if mutating(s.o.code) {
 					nontriv = true
 				}
-				if s.dmp != nil && s.dmp.size > maxSize {
-					maxSize = s.dmp.size
+				for _, d := range s.dmps {
+					if d.size > maxSize {
+						maxSize = d.size
+					}
 				}
 			}
 			rep.Case(sb.String(), nontriv)
@@ -1472,6 +1790,7 @@ func main() {
 				rep.Count("history-with-full-hash-collision:" + h.t.name)
 			}
 			rep.Count("ctor:" + h.c.String())
+			rep.Count(fmt.Sprintf("live-instances:%d", len(h.cs)))
 			rep.Count("history-length:" + bucket(len(h.steps)))
 			rep.Count("max-size:" + bucket(maxSize))
 			rep.Count(fmt.Sprintf("growth-steps:%d", growthSteps(h.c, maxSize)))
@@ -1498,7 +1817,7 @@ type pendingFail struct {
 	v *verdict
 }
 
-func failsWith(env *vh.Env, t *tdesc, c ctor, ops []op, key string, skip map[string]bool) (*histRes, *verdict) {
+func failsWith(env *vh.Env, t *tdesc, c []ctor, ops []op, key string, skip map[string]bool) (*histRes, *verdict) {
 	h := runImpl(t, c, ops, 1, skip)
 	if h.abort != "" {
 		return nil, nil
@@ -1523,7 +1842,7 @@ func shrink(env *vh.Env, h *histRes, v *verdict, budget int) (*histRes, *verdict
 		upto = len(h.ops)
 	}
 	cur := append([]op(nil), h.ops[:upto]...)
-	bestH, bestV := failsWith(env, h.t, h.c, cur, v.key, h.skip)
+	bestH, bestV := failsWith(env, h.t, h.cs, cur, v.key, h.skip)
 	if bestH == nil {
 		return h, v
 	}
@@ -1538,7 +1857,7 @@ func shrink(env *vh.Env, h *histRes, v *verdict, budget int) (*histRes, *verdict
 			}
 			cand := append(append([]op(nil), cur[:i]...), cur[j:]...)
 			budget--
-			if hh, vv := failsWith(env, h.t, h.c, cand, v.key, h.skip); hh != nil {
+			if hh, vv := failsWith(env, h.t, h.cs, cand, v.key, h.skip); hh != nil {
 				cur, bestH, bestV = cand, hh, vv
 				reduced = true
 				if n > 2 {
@@ -1641,6 +1960,15 @@ func touchesGroup(t *tdesc, ops []op) bool {
 	return false
 }
 
+func contains(xs []string, x string) bool {
+	for _, y := range xs {
+		if y == x {
+			return true
+		}
+	}
+	return false
+}
+
 func bucket(n int) string {
 	switch {
 	case n == 0:
@@ -1702,7 +2030,14 @@ func replayFile(env *vh.Env, rep *vh.Report) {
 				ops = append(ops, o)
 			}
 		}
-		h := runImpl(t, c, ops, 1, nil)
+		cs := []ctor{c}
+		if len(rc.Insts) > 0 {
+			cs = nil
+			for _, x := range rc.Insts {
+				cs = append(cs, ctor{def: x.Def, cap: x.Cap, lf: x.Lf})
+			}
+		}
+		h := runImpl(t, cs, ops, 1, nil)
 		if h.abort != "" {
 			rep.Fail("property", rc.Type+".replay:"+h.abort, fmt.Sprintf("replayed history ends in %s at op %d: %s", h.abort, h.abortI, vh.Clip(h.abortP, 160)),
 				mkReplay(h, len(h.steps)-1, "a result", h.abort, h.abortP))
